@@ -547,6 +547,7 @@ func (x *run) newCall(kind, name string) *call {
 
 //go:norace
 func (x *run) fin(b *bool) {
+	x.k.Announce()
 	x.k.Lock()
 	*b = true
 	x.k.Unlock()
